@@ -2,11 +2,13 @@
 
 R-C29.1  "wrapped only at whitespace": every call of textwrap.wrap/fill/TextWrapper reached
          from diagnostic.wrap disables break_long_words and break_on_hyphens.
-R-C29.2  totality of `wrap`: the `[first, *rest] = ...` destructuring cannot fail for any
-         non-empty text (every paragraph contributes at least one line).
-R-C29.3  "every word of every label and message": in render_diagnostic, each message/label of
-         the diagnostic and of every child is emitted under no other condition than its own
-         non-emptiness (labels: the child having a span).
+R-C29.2  `wrap` is interpreted (textwrap.wrap modelled by its contract) on empty / blank-only / multi-paragraph texts, two
+         widths, with and without indents: it returns normally, keeps every word exactly once and in order, applies the
+         indents (c29_wrap.py; the shape of the `[first, *rest]` destructuring only as fallback).
+R-C29.3  `render_diagnostic` is interpreted on 808 (thorough: 3368) shapes of diagnostic -- primary span or not, label/message
+         present or not, up to two children with no span / an AST node / a single-line, multi-line or empty Span object (truth
+         value from the repository's own Span.__len__), label, message: rendering is total and every label and message is
+         printed exactly once (c29_render.py; guard-minimality of the output statements only as fallback).
 R-C29.4  "spanned source lines": SourceMap.add_file (re-)reads the file on every call (no
          stale cache); span_lines indexes with the span's own start/end lines.
 R-C29.5  context lines keep their numbers: between `span_lines(...)` and the numbering loop the window is only
@@ -66,82 +68,87 @@ def run(ctx: Ctx) -> None:
                   "lines are not wrapped only at whitespace")
 
     # ------------------------------------------------------------ R-C29.2
-    destr = [n for n in walk_no_nested(wrap.node) if isinstance(n, ast.Assign) and isinstance(n.targets[0], (ast.List, ast.Tuple))
-             and any(isinstance(e, ast.Starred) for e in n.targets[0].elts)]
-    if len(destr) != 1:
-        ctx.undecided("R-C29.2", f"{wrap.qualname}#destructuring", wrap.where, "no single starred destructuring")
-    else:
-        v = destr[0].value
-        total = False
-        facts = {"value": ast.unparse(v)[:160]}
-        # accepted shapes: `<listcomp> or [""]`, or a comprehension whose per-paragraph part is `(X or [""])` / `X if p.strip() else [""]`
-        if isinstance(v, ast.BoolOp) and isinstance(v.op, ast.Or) and isinstance(v.values[-1], ast.List) and v.values[-1].elts:
-            total = True
-        elif isinstance(v, ast.ListComp) and len(v.generators) == 2:
-            inner = v.generators[1].iter
-            if isinstance(inner, ast.BoolOp) and isinstance(inner.op, ast.Or) and isinstance(inner.values[-1], ast.List) and inner.values[-1].elts:
+    from . import c29_render, c29_wrap
+    if not c29_wrap.run(ctx):
+        # fallback (wrap could not be interpreted): shape of the destructuring, and callers never pass an empty text
+        destr = [n for n in walk_no_nested(wrap.node) if isinstance(n, ast.Assign) and isinstance(n.targets[0], (ast.List, ast.Tuple))
+                 and any(isinstance(e, ast.Starred) for e in n.targets[0].elts)]
+        if len(destr) != 1:
+            ctx.undecided("R-C29.2", f"{wrap.qualname}#destructuring", wrap.where, "no single starred destructuring")
+        else:
+            v = destr[0].value
+            total = False
+            facts = {"value": ast.unparse(v)[:160]}
+            # accepted shapes: `<listcomp> or [""]`, or a comprehension whose per-paragraph part is `(X or [""])` / `X if p.strip() else [""]`
+            if isinstance(v, ast.BoolOp) and isinstance(v.op, ast.Or) and isinstance(v.values[-1], ast.List) and v.values[-1].elts:
                 total = True
-            elif isinstance(inner, ast.IfExp) and isinstance(inner.orelse, ast.List) and inner.orelse.elts:
-                t = ast.unparse(inner.test)
-                total = "strip()" in t  # a paragraph of only blanks must take the [""] branch as well
-                facts["paragraph_test"] = t
-        ctx.check(total, "R-C29.2", f"{wrap.qualname}#destructuring-total", f"{wrap.module.rel}:{destr[0].lineno}", facts,
-                  "rendering raises ValueError for a label or message that consists only of blanks (textwrap.wrap returns no line for it, "
-                  "so `[first, *rest] = []` fails): rendering is not total")
-    # callers guard with a truthiness test (empty text)
-    n_callers = 0
-    for f in idx.iter_funcs((DG,)):
-        for c in calls_in(f.node):
-            if call_name(c) == "wrap" and isinstance(c.func, ast.Name) and f is not wrap:
-                n_callers += 1
-                arg = c.args[0]
-                if isinstance(arg, ast.JoinedStr):
-                    ctx.ok("R-C29.2", f"{f.qualname}#wrap-arg-nonempty[{n_callers}]", f"{f.module.rel}:{c.lineno}", {"arg": "f-string with literal text"})
-                    continue
-                gs = lexical_guards(f.node, c) or []
-                guarded = any(ast.unparse(e) == ast.unparse(arg) and pol for e, pol in gs)
-                ctx.check(guarded, "R-C29.2", f"{f.qualname}#wrap-arg-nonempty[{n_callers}]", f"{f.module.rel}:{c.lineno}",
-                          {"arg": ast.unparse(arg), "guards": [ast.unparse(e)[:40] for e, _ in gs]}, "wrap is called with a possibly empty text")
-    ctx.floor("R-C29.2", "callers of wrap", n_callers, 4)
+            elif isinstance(v, ast.ListComp) and len(v.generators) == 2:
+                inner = v.generators[1].iter
+                if isinstance(inner, ast.BoolOp) and isinstance(inner.op, ast.Or) and isinstance(inner.values[-1], ast.List) and inner.values[-1].elts:
+                    total = True
+                elif isinstance(inner, ast.IfExp) and isinstance(inner.orelse, ast.List) and inner.orelse.elts:
+                    t = ast.unparse(inner.test)
+                    total = "strip()" in t  # a paragraph of only blanks must take the [""] branch as well
+                    facts["paragraph_test"] = t
+            ctx.check(total, "R-C29.2", f"{wrap.qualname}#destructuring-total", f"{wrap.module.rel}:{destr[0].lineno}", facts,
+                      "rendering raises ValueError for a label or message that consists only of blanks (textwrap.wrap returns no line for it, "
+                      "so `[first, *rest] = []` fails): rendering is not total")
+        # callers guard with a truthiness test (empty text)
+        n_callers = 0
+        for f in idx.iter_funcs((DG,)):
+            for c in calls_in(f.node):
+                if call_name(c) == "wrap" and isinstance(c.func, ast.Name) and f is not wrap:
+                    n_callers += 1
+                    arg = c.args[0]
+                    if isinstance(arg, ast.JoinedStr):
+                        ctx.ok("R-C29.2", f"{f.qualname}#wrap-arg-nonempty[{n_callers}]", f"{f.module.rel}:{c.lineno}", {"arg": "f-string with literal text"})
+                        continue
+                    gs = lexical_guards(f.node, c) or []
+                    guarded = any(ast.unparse(e) == ast.unparse(arg) and pol for e, pol in gs)
+                    ctx.check(guarded, "R-C29.2", f"{f.qualname}#wrap-arg-nonempty[{n_callers}]", f"{f.module.rel}:{c.lineno}",
+                              {"arg": ast.unparse(arg), "guards": [ast.unparse(e)[:40] for e, _ in gs]}, "wrap is called with a possibly empty text")
+        ctx.floor("R-C29.2", "callers of wrap", n_callers, 4)
 
     # ------------------------------------------------------------ R-C29.3
-    rd = idx.method("DiagnosticsRenderer", "render_diagnostic", DG)
-    ctx.saw("functions", rd.qualname)
-    outs = []
-    for c in calls_in(rd.node):
-        if call_name(c) in ("wrap", "render_snippet", "append"):
-            for a in ast.walk(c):
-                if isinstance(a, ast.Attribute) and a.attr in ("rendered_message", "rendered_span_label", "rendered_title") and isinstance(a.ctx, ast.Load):
-                    outs.append((c, a))
-    ctx.floor("R-C29.3", "output statements in render_diagnostic", len(outs), 5)
-    seen_parts = set()
-    for c, a in outs:
-        owner = dotted(a.value)
-        part = f"{'child' if owner != rd.node.args.args[1].arg else 'diag'}.{a.attr}"
-        seen_parts.add(part)
-        gs = lexical_guards(rd.node, c) or []
-        # permitted guards: the part's own truthiness; for labels the owner's span; the top-level span/no-span split of the diagnostic
-        extra = []
-        for e, pol in gs:
-            t = ast.unparse(e)
-            ok = t in (f"{owner}.{a.attr}", f"{owner}.span", f"{owner}.span is None", f"{owner}.span is not None")
-            if not ok and t in (f"{rd.node.args.args[1].arg}.span is None", f"{rd.node.args.args[1].arg}.span is not None", f"{rd.node.args.args[1].arg}.span"):
-                ok = True  # the two layouts (with / without primary span) both print everything; checked below
-            if a.attr == "rendered_message" and owner != rd.node.args.args[1].arg and t.startswith(f"{owner}.span"):
-                ok = False  # a child's message must not depend on the child having a span
-            if not ok:
-                extra.append(f"{t} is {pol}")
-        ctx.check(not extra, "R-C29.3", f"{rd.qualname}#prints-{part}@{'no-span' if any('span is None' in ast.unparse(e) and p for e, p in gs) else 'span'}-layout",
-                  f"{rd.module.rel}:{c.lineno}", {"statement": ast.unparse(c)[:80], "extra_conditions": extra},
-                  f"the {part.replace('.', ' ')} is printed only under an additional condition: some words of a label or message are not shown")
-    need = {"diag.rendered_title", "diag.rendered_span_label", "diag.rendered_message", "child.rendered_span_label", "child.rendered_message"}
-    ctx.check(need <= seen_parts, "R-C29.3", f"{rd.qualname}#prints-every-part", rd.where, {"printed": sorted(seen_parts), "missing": sorted(need - seen_parts)},
-              "a label or message of the diagnostic is never printed")
-    # both child loops run over all children
-    for loop in [n for n in walk_no_nested(rd.node) if isinstance(n, ast.For)]:
-        ok = ast.unparse(loop.iter).endswith(".children") and not any(isinstance(x, (ast.Break, ast.Return)) for s in loop.body for x in walk_no_nested(s))
-        ctx.check(ok, "R-C29.3", f"{rd.qualname}#loop-over-all-children@{loop.lineno - rd.node.lineno}", f"{rd.module.rel}:{loop.lineno}", {"iterates": ast.unparse(loop.iter)},
-                  "not every sub-diagnostic is rendered")
+    if not c29_render.run(ctx):
+        # fallback (render_diagnostic could not be interpreted): every output statement is guarded by nothing but its own part
+        rd = idx.method("DiagnosticsRenderer", "render_diagnostic", DG)
+        ctx.saw("functions", rd.qualname)
+        outs = []
+        for c in calls_in(rd.node):
+            if call_name(c) in ("wrap", "render_snippet", "append"):
+                for a in ast.walk(c):
+                    if isinstance(a, ast.Attribute) and a.attr in ("rendered_message", "rendered_span_label", "rendered_title") and isinstance(a.ctx, ast.Load):
+                        outs.append((c, a))
+        ctx.floor("R-C29.3", "output statements in render_diagnostic", len(outs), 5)
+        seen_parts = set()
+        for c, a in outs:
+            owner = dotted(a.value)
+            part = f"{'child' if owner != rd.node.args.args[1].arg else 'diag'}.{a.attr}"
+            seen_parts.add(part)
+            gs = lexical_guards(rd.node, c) or []
+            # permitted guards: the part's own truthiness; for labels the owner's span; the top-level span/no-span split of the diagnostic
+            extra = []
+            for e, pol in gs:
+                t = ast.unparse(e)
+                ok = t in (f"{owner}.{a.attr}", f"{owner}.span", f"{owner}.span is None", f"{owner}.span is not None")
+                if not ok and t in (f"{rd.node.args.args[1].arg}.span is None", f"{rd.node.args.args[1].arg}.span is not None", f"{rd.node.args.args[1].arg}.span"):
+                    ok = True  # the two layouts (with / without primary span) both print everything; checked below
+                if a.attr == "rendered_message" and owner != rd.node.args.args[1].arg and t.startswith(f"{owner}.span"):
+                    ok = False  # a child's message must not depend on the child having a span
+                if not ok:
+                    extra.append(f"{t} is {pol}")
+            ctx.check(not extra, "R-C29.3", f"{rd.qualname}#prints-{part}@{'no-span' if any('span is None' in ast.unparse(e) and p for e, p in gs) else 'span'}-layout",
+                      f"{rd.module.rel}:{c.lineno}", {"statement": ast.unparse(c)[:80], "extra_conditions": extra},
+                      f"the {part.replace('.', ' ')} is printed only under an additional condition: some words of a label or message are not shown")
+        need = {"diag.rendered_title", "diag.rendered_span_label", "diag.rendered_message", "child.rendered_span_label", "child.rendered_message"}
+        ctx.check(need <= seen_parts, "R-C29.3", f"{rd.qualname}#prints-every-part", rd.where, {"printed": sorted(seen_parts), "missing": sorted(need - seen_parts)},
+                  "a label or message of the diagnostic is never printed")
+        # both child loops run over all children
+        for loop in [n for n in walk_no_nested(rd.node) if isinstance(n, ast.For)]:
+            ok = ast.unparse(loop.iter).endswith(".children") and not any(isinstance(x, (ast.Break, ast.Return)) for s in loop.body for x in walk_no_nested(s))
+            ctx.check(ok, "R-C29.3", f"{rd.qualname}#loop-over-all-children@{loop.lineno - rd.node.lineno}", f"{rd.module.rel}:{loop.lineno}", {"iterates": ast.unparse(loop.iter)},
+                      "not every sub-diagnostic is rendered")
 
     # ------------------------------------------------------------ R-C29.4
     af = idx.method("SourceMap", "add_file", "guppylang_internals.span")
